@@ -546,7 +546,7 @@ def drawn_body(ctx):
 
 
 def run(ctx):
-    hyp_run(ctx, 'c18.case', CASE, drawn_body(ctx), ctx.pick(250, 5000))
+    hyp_run(ctx, 'c18.case', CASE, drawn_body(ctx), ctx.pick(250, 20000))
     run_exhaustive(ctx)
 
 
